@@ -6,6 +6,8 @@ package security
 
 // A scheme's scopes are satisfied exactly when every required scope is among the ones presented.
 //@ func validateScopes
+//@   params expected actual
+//@   locals missing
 //@   property C06
 //@   ensures* accept: (forall j int :: 0 <= j && j < len(expected) ==> (exists k int :: 0 <= k && k < len(actual) && actual[k] == expected[j])) ==> result == nil
 //@   ensures* reject: result == nil ==> (forall j int :: 0 <= j && j < len(expected) ==> (exists k int :: 0 <= k && k < len(actual) && actual[k] == expected[j]))
@@ -20,6 +22,7 @@ package security
 //@   frameprop C06
 
 //@ func (*BasicScheme).Validate
+//@   params s scopes
 //@   property C06
 //@   requires s != nil
 //@   ensures* accept: (forall j int :: 0 <= j && j < len(s.RequiredScopes) ==> (exists k int :: 0 <= k && k < len(scopes) && scopes[k] == s.RequiredScopes[j])) ==> result == nil
@@ -28,6 +31,7 @@ package security
 //@   frameprop C06
 
 //@ func (*APIKeyScheme).Validate
+//@   params s scopes
 //@   property C06
 //@   requires s != nil
 //@   ensures* accept: (forall j int :: 0 <= j && j < len(s.RequiredScopes) ==> (exists k int :: 0 <= k && k < len(scopes) && scopes[k] == s.RequiredScopes[j])) ==> result == nil
@@ -36,6 +40,7 @@ package security
 //@   frameprop C06
 
 //@ func (*OAuth2Scheme).Validate
+//@   params s scopes
 //@   property C06
 //@   requires s != nil
 //@   ensures* accept: (forall j int :: 0 <= j && j < len(s.RequiredScopes) ==> (exists k int :: 0 <= k && k < len(scopes) && scopes[k] == s.RequiredScopes[j])) ==> result == nil
@@ -44,6 +49,7 @@ package security
 //@   frameprop C06
 
 //@ func (*JWTScheme).Validate
+//@   params s scopes
 //@   property C06
 //@   requires s != nil
 //@   ensures* accept: (forall j int :: 0 <= j && j < len(s.RequiredScopes) ==> (exists k int :: 0 <= k && k < len(scopes) && scopes[k] == s.RequiredScopes[j])) ==> result == nil
